@@ -95,6 +95,7 @@ Hard == {"res", "issued", "probe_active", "now"}
 
 TStep ==
   /\ l <= Len(Trace)
+  /\ Trace[l].ev \in {"reset", "op"}
   /\ LET e == Trace[l] IN
      IF e.ev = "reset"
      THEN /\ st' = InitState(e.cfg) /\ skip' = FALSE /\ report' = report /\ seen' = {}
